@@ -2508,6 +2508,11 @@ bool mmd_engine_has_metadata(mmd_engine * e, size_t * end) {
 		return false;
 	}
 
+	if (end) {
+		// No metadata (yet): every path below that finds none leaves this answer
+		*end = 0;
+	}
+
 	if (!(scan_meta_line(&e->dstr->str[0]))) {
 		// First line is not metadata, so can't have metadata
 		// Saves the time of an unnecessary parse
